@@ -1,4 +1,4 @@
 SPECIFICATION Spec
-CONSTANTS MaxDepth = 2 MaxN = 2 MaxHistView = 0 Fault = "zero-inverted"
+CONSTANTS MaxDepth = 2 MaxN = 2 MaxHistView = 0 HistClassIdx = {4, 5} Fault = "zero-inverted"
 INVARIANTS InvStep InvAccumulated InvOutput
 CHECK_DEADLOCK FALSE
